@@ -188,8 +188,29 @@ struct Ex {
         o["line"] = lineOf(SM, VD->getLocation());
         return true;
       }
+      // pointer locals initialised by a call (chunk addresses, raw regions): kept for the stale-pointer rule
+      for (auto *D : DS->decls()) if (auto *VD = dyn_cast<VarDecl>(D)) if (VD->getType()->isPointerType() && VD->hasInit() && !isa<CXXNewExpr>(strip(VD->getInit()))) {
+          o["k"] = "ldef";
+          o["var"] = VD->getNameAsString();
+          o["rhs"] = exprText(Ctx, VD->getInit());
+          if (auto *CE = dyn_cast_or_null<CallExpr>(strip(VD->getInit()))) if (const FunctionDecl *F = calleeOf(CE)) o["callq"] = qualName(F);
+          o["ptr"] = true;
+          o["line"] = lineOf(SM, VD->getLocation());
+          return true;
+        }
       return false;
     }
+    if (auto *BO0 = dyn_cast<BinaryOperator>(S)) if (BO0->getOpcode() == BO_Assign && BO0->getLHS()->getType()->isPointerType())
+      if (auto *DR = dyn_cast<DeclRefExpr>(strip(BO0->getLHS()))) if (auto *VD = dyn_cast<VarDecl>(DR->getDecl())) if (VD->isLocalVarDeclOrParm())
+        if (auto *CE = dyn_cast_or_null<CallExpr>(strip(BO0->getRHS()))) if (const FunctionDecl *F = calleeOf(CE)) {
+          o["k"] = "ldef";
+          o["var"] = VD->getNameAsString();
+          o["rhs"] = exprText(Ctx, BO0->getRHS());
+          o["callq"] = qualName(F);
+          o["ptr"] = true;
+          o["line"] = lineOf(SM, BO0->getBeginLoc());
+          return true;
+        }
     if (auto *CC = dyn_cast<CXXConstructExpr>(S)) {
       o["k"] = "construct";
       o["q"] = qualName(CC->getConstructor());
